@@ -4,6 +4,7 @@ damage of an index function that is off by one (finding F14).
 -/
 import Otel.C07.Props
 import Otel.C07.Int64
+import Otel.C07.LemmasCoh
 namespace Otel.C07
 open Spec
 
@@ -142,6 +143,35 @@ theorem hist_i64_ok_full_statement_refuted : ¬ hist_i64_ok_full_statement := by
   revert this
   decide
 
+
+/-! ## the exact index is consistent across all scales -/
+
+/-- "re-scaling without … misplacing": the exact bucket index of the statement is consistent across ALL scales —
+lowering the scale by `δ` shifts the index by `δ` (floor): `exactIdx (s − δ) v = exactIdx s v >>> δ`, for positive,
+zero and negative scales and across zero (on the positive scales by `E(Q²)/2 = E(Q)` for
+`E(x) = log2 x − [x is a power of two]`, `bracket_sq_half`) -/
+theorem expo_exact_index_coherent (s : Int) (δ : Nat) (v : Val) (hm : v.mant ≠ 0) :
+    exactIdx (s - (δ : Int)) v = exactIdx s v >>> δ := by
+  have nonpos : ∀ (s : Int), s ≤ 0 → ∀ δ : Nat, exactIdx (s - (δ : Int)) v = exactIdx s v >>> δ := by
+    intro s hs δ
+    have h1 := expo_placement_nonpos (fun _ _ => 0) s hs v
+    have h2 := expo_placement_nonpos (fun _ _ => 0) (s - (δ : Int)) (by omega) v
+    rw [← h1, ← h2]
+    exact getBin_nonpos_coherent _ s hs δ v
+  by_cases hs : s ≤ 0
+  · exact nonpos s hs δ
+  · by_cases hd : (δ : Int) ≤ s
+    · exact exactIdx_coherent_nonneg v hm δ s hd
+    · have e1 : s - (δ : Int) = 0 - ((δ - s.toNat : Nat) : Int) := by omega
+      have e2 : δ = s.toNat + (δ - s.toNat) := by omega
+      have h0 := exactIdx_coherent_nonneg v hm s.toNat s (by omega)
+      have e3 : s - (s.toNat : Int) = 0 := by omega
+      rw [e3] at h0
+      rw [e1, nonpos 0 (Int.le_refl _) (δ - s.toNat), h0, ← Int.shiftRight_add, ← e2]
+
+example : exactIdx 2 ⟨false, 9, -2⟩ = 4 ∧ exactIdx 1 ⟨false, 9, -2⟩ = 2 ∧ exactIdx 0 ⟨false, 9, -2⟩ = 1 ∧
+    exactIdx (-1) ⟨false, 9, -2⟩ = 0 ∧ exactIdx 3 ⟨false, 3, -3⟩ = -12 ∧ exactIdx 1 ⟨false, 3, -3⟩ = -3 := by decide
+
 /-! ## finding F14 bounded: index functions within one bucket of the exact index -/
 
 /-- the tolerance of F14: on the positive scales the index function is off by at most one bucket (the float
@@ -247,6 +277,101 @@ theorem expo_f14_other_clauses (L : Int → Val → Int) (ms : Nat) (sc : Int) (
    expo_scale_floor L ms sc hm vs, expo_drops_only_on_underflow L ms sc vs,
    (expo_placement L ms sc vs).1, (expo_placement L ms sc vs).2.1, (expo_placement L ms sc vs).2.2⟩
 
+
+/-- F14's damage to the placement clause, against the exact index at the FINAL scale (with
+`expo_exact_index_coherent`): every recorded value `v` is finally counted in the bucket `exactIdx s v` of the
+statement — `base^i < |v| ≤ base^(i+1)` at the reported scale `s` — or in one of its two neighbours -/
+theorem expo_f14_placement_final_scale (L : Int → Val → Int) (hL : NearExact L) (ms : Nat) (sc : Int)
+    (vs : List (Option Val)) (k : Nat) (v : Val) (n : Bool) (sb ib sa ia : Int)
+    (hv : vs[k]? = some (some v)) (ho : (run L ms sc vs).2[k]? = some (Out.val n sb ib sa ia true)) :
+    ∃ j, finalIdx n (run L ms sc vs).1.scale (Out.val n sb ib sa ia true) = some j ∧
+      exactIdx (run L ms sc vs).1.scale v - 1 ≤ j ∧ j ≤ exactIdx (run L ms sc vs).1.scale v + 1 := by
+  obtain ⟨hs, _, _, hf, h1, h2⟩ := expo_f14_placement_within_one L hL ms sc vs k v n sb ib sa ia hv ho
+  obtain ⟨_, hm⟩ := runFrom_out_index L ms vs (Expo.init sc) k v n sb ib sa ia hv ho
+  have hc := expo_exact_index_coherent sa (sa - (run L ms sc vs).1.scale).toNat v hm
+  have e : sa - ((sa - (run L ms sc vs).1.scale).toNat : Int) = (run L ms sc vs).1.scale := by omega
+  rw [e] at hc
+  exact ⟨_, hf, by rw [hc]; exact h1, by rw [hc]; exact h2⟩
+
+/-! ### the size clause under F14 -/
+
+private theorem bucket_step_tol (ms : Nat) (b : Buckets) (bin bin' : Int) (t : Nat)
+    (hb : b.counts.length ≤ ms) (hms : 1 ≤ ms)
+    (hδ : scaleChange ms bin b.start b.counts.length ≤ 30)
+    (h1 : (bin >>> scaleChange ms bin b.start b.counts.length) - (t : Int) ≤ bin')
+    (h2 : bin' ≤ (bin >>> scaleChange ms bin b.start b.counts.length) + (t : Int)) :
+    ((b.downscale (scaleChange ms bin b.start b.counts.length)).record bin').counts.length ≤ ms + t := by
+  by_cases hn : b.counts.length = 0
+  · have hl := downscale_len_le b (scaleChange ms bin b.start b.counts.length)
+    have := (record_len (b.downscale (scaleChange ms bin b.start b.counts.length)) bin').1 (by omega)
+    omega
+  · have hspec := (scaleChange_spec ms bin b.start b.counts.length hn).2 hδ
+    have hl := downscale_len_le b (scaleChange ms bin b.start b.counts.length)
+    have hlen := downscale_len b (scaleChange ms bin b.start b.counts.length) hn
+    have hst := downscale_start b (scaleChange ms bin b.start b.counts.length)
+    have hm1 := shr_mono b.start (b.start + (b.counts.length : Int) - 1) (scaleChange ms bin b.start b.counts.length) (by omega)
+    have hn' : (b.downscale (scaleChange ms bin b.start b.counts.length)).counts.length ≠ 0 := by omega
+    have hr := (record_len (b.downscale (scaleChange ms bin b.start b.counts.length)) bin').2 hn'
+    rw [hst] at hr
+    by_cases hsb : b.start ≥ bin
+    · have h1' := hspec.1 hsb
+      have hm2 := shr_mono bin b.start (scaleChange ms bin b.start b.counts.length) hsb
+      omega
+    · have h1' := hspec.2 hsb
+      have hm2 := shr_mono b.start bin (scaleChange ms bin b.start b.counts.length) (by omega)
+      omega
+
+/-- the size clause under F14, per measurement: if the data point holds at most `maxSize` buckets per sign and
+the index function is within one bucket of the exact index, then after one more measurement it holds at most
+`maxSize + 2` (the index used to decide the re-scaling and the index used after it may err in opposite
+directions: `expo_f14_size_plus_two_witness`), and nothing is added on the sign that was not measured. (When no
+re-scaling happens the bound `maxSize` itself is kept: the same index decides and records.) -/
+theorem expo_f14_size_step (L : Int → Val → Int) (hL : NearExact L) (ms : Nat) (hms : 1 ≤ ms) (p : Expo) (v : Val)
+    (hs : p.scale ≤ 20) (h : sizeOK ms p = true) :
+    (record L ms p v).1.pos.counts.length ≤ ms + 2 ∧ (record L ms p v).1.neg.counts.length ≤ ms + 2 := by
+  simp only [sizeOK, Bool.and_eq_true, decide_eq_true_eq] at h
+  unfold record
+  by_cases hz : v.mant = 0
+  · simp [hz, Expo.countMinMaxSum]; omega
+  · simp only [hz, if_false]
+    have hb : (p.bucketOf v.neg).counts.length ≤ ms := by
+      unfold Expo.bucketOf; split <;> omega
+    split
+    · rename_i hpos
+      split
+      · exact ⟨by show p.pos.counts.length ≤ ms + 2; omega, by show p.neg.counts.length ≤ ms + 2; omega⟩
+      · rename_i hu
+        simp only [expoMinScale] at hu
+        generalize hδe : scaleChange ms (getBin L p.scale v) (p.bucketOf v.neg).start (p.bucketOf v.neg).counts.length = δ at *
+        have hδ : δ ≤ 30 := by omega
+        have n1 := getBin_near L hL p.scale v hz
+        have n2 := getBin_near L hL (p.scale - (δ : Int)) v hz
+        have sh := shift_near (exactIdx p.scale v) (getBin L p.scale v) δ n1.1 n1.2
+        have co := expo_exact_index_coherent p.scale δ v hz
+        have step := bucket_step_tol ms (p.bucketOf v.neg) (getBin L p.scale v) (getBin L (p.scale - (δ : Int)) v) 2 hb hms
+          (by rw [hδe]; exact hδ) (by rw [hδe]; omega) (by rw [hδe]; omega)
+        rw [hδe] at step
+        have hlp := downscale_len_le p.pos δ
+        have hln := downscale_len_le p.neg δ
+        cases hneg : v.neg
+        · simp only [Expo.bucketOf, hneg, Bool.false_eq_true, if_false] at step
+          simp only [Expo.recordBin, hneg, Expo.rescale, Expo.countMinMaxSum, Bool.false_eq_true, if_false]
+          exact ⟨step, by omega⟩
+        · simp only [Expo.bucketOf, hneg, if_true] at step
+          simp only [Expo.recordBin, hneg, Expo.rescale, Expo.countMinMaxSum, if_true]
+          exact ⟨by omega, step⟩
+    · rename_i hpos
+      have h0 : scaleChange ms (getBin L p.scale v) (p.bucketOf v.neg).start (p.bucketOf v.neg).counts.length = 0 := by omega
+      have step := bucket_step ms hms (p.bucketOf v.neg) (getBin L p.scale v) hb (by omega)
+      rw [h0, downscale_zero, Int.shiftRight_zero] at step
+      cases hneg : v.neg
+      · simp only [Expo.bucketOf, hneg, Bool.false_eq_true, if_false] at step
+        simp only [Expo.recordBin, hneg, Expo.countMinMaxSum, Bool.false_eq_true, if_false]
+        exact ⟨by omega, by omega⟩
+      · simp only [Expo.bucketOf, hneg, if_true] at step
+        simp only [Expo.recordBin, hneg, Expo.countMinMaxSum, if_true]
+        exact ⟨by omega, by omega⟩
+
 /-- an index function that is exact except for being one bucket low at one value of one scale -/
 def exNearL (s : Int) (v : Val) : Int :=
   if s = 1 ∧ v = ⟨false, 5, 0⟩ then exactIdx s v - 1 else exactIdx s v
@@ -265,5 +390,30 @@ theorem expo_f14_size_witness :
     sizeOK 1 (run exNearL 1 1 [some ⟨false, 5, -1⟩, some ⟨false, 5, 0⟩]).1 = false ∧
     (run exNearL 1 1 [some ⟨false, 5, -1⟩, some ⟨false, 5, 0⟩]).1.pos = ⟨1, [1, 1]⟩ ∧
     (run exNearL 1 1 [some ⟨false, 5, -1⟩, some ⟨false, 5, 0⟩]).1.scale = 0 := by decide
+
+/-- an index function within one bucket of the exact index that errs in opposite directions at two scales -/
+def exNearL2 (s : Int) (v : Val) : Int :=
+  if v = ⟨false, 9, -2⟩ then
+    (if s = 2 then exactIdx s v - 1 else if s = 1 then exactIdx s v + 1 else exactIdx s v)
+  else exactIdx s v
+
+theorem exNearL2_near : NearExact exNearL2 := by
+  intro s v _ _
+  unfold exNearL2
+  split
+  · split
+    · omega
+    · split <;> omega
+  · omega
+
+/-- `maxSize + 2` in `expo_f14_size_step` is attained by such an index function (`maxSize = 1`: 1.5, then 2.25
+whose index is reported one too low at scale 2 — one halving seems to suffice — and one too high at scale 1),
+so `maxSize + 1` is not a bound for every index function within one bucket of the exact index. (An index that
+errs in one direction only, or a re-scaling that lands on a non-positive scale where `getBin` is exact, gives
+`maxSize + 1`: `expo_f14_size_witness`.) -/
+theorem expo_f14_size_plus_two_witness :
+    sizeOK 1 (run exNearL2 1 2 [some ⟨false, 3, -1⟩]).1 = true ∧
+    (run exNearL2 1 2 [some ⟨false, 3, -1⟩, some ⟨false, 9, -2⟩]).1.pos = ⟨1, [1, 0, 1]⟩ ∧
+    (run exNearL2 1 2 [some ⟨false, 3, -1⟩, some ⟨false, 9, -2⟩]).1.scale = 1 := by decide
 
 end Otel.C07
